@@ -173,6 +173,9 @@ def build_harness(cfg, run, idx, work):
         if not base.endswith("_test.go"):
             base = base[:-3] + "_test.go"
         replace[os.path.join(pkgdir, "zz_verif_" + base)] = src
+    # extra overlay entries (helper packages the harness imports): {"path/relative/to/repo.go": "file in harness dir"}
+    for rel, src in (run.get("overlay") or {}).items():
+        replace[os.path.normpath(os.path.join(REPO, rel))] = os.path.join(cfg["_dir"], src)
     ov = os.path.join(work, f"overlay_{idx}.json")
     with open(ov, "w") as f:
         json.dump({"Replace": replace}, f)
